@@ -515,3 +515,42 @@ Proof.
     + injection Hin as -> ->. exact E0.
     + eapply IH; eauto.
 Qed.
+
+(* ---------- what the consumers need, invariant under reordering the catalog ----------
+   HashedTable.Rows / .Keys are Go maps: the drivers range over them in an unspecified order.
+   Everything the join proofs use about a catalog survives any permutation of its entries. *)
+Record catalog_inv (cols : list (list string)) (rows : list value) (cat : list centry) : Prop := {
+  ci_keys : (forall e r, In e cat -> In r (crows e) -> exists km, row_key cols r = Ok (fst e, km)) /\
+            (forall e, In e cat -> exists r, In r (crows e) /\ row_key cols r = Ok (fst e, ckmap e));
+  ci_nodup : NoDup (ckeys cat);
+  ci_nonempty : Forall (fun e => crows e <> []) cat;
+  ci_perm : Permutation (List.concat (map crows cat)) rows }.
+
+Lemma catalog_of_inv cols rows cat : catalog_of cols rows cat -> catalog_inv cols rows cat.
+Proof.
+  intros H. constructor; try apply H. split.
+  - intros e r. apply (catalog_row_key cols rows cat e r H).
+  - intros e. apply (catalog_key_map cols rows cat e H).
+Qed.
+
+Lemma concat_map_perm {X Y} (f : X -> list Y) l l' :
+  Permutation l l' -> Permutation (List.concat (map f l)) (List.concat (map f l')).
+Proof.
+  induction 1; cbn.
+  - constructor.
+  - now apply Permutation_app_head.
+  - rewrite !app_assoc. apply Permutation_app_tail, Permutation_app_comm.
+  - etransitivity; eauto.
+Qed.
+
+Lemma catalog_inv_perm cols rows cat cat' :
+  Permutation cat cat' -> catalog_inv cols rows cat -> catalog_inv cols rows cat'.
+Proof.
+  intros Hp [[H1 H2] H3 H4 H5]. constructor.
+  - split.
+    + intros e r He. apply H1. eapply Permutation_in; [symmetry; exact Hp|exact He].
+    + intros e He. apply H2. eapply Permutation_in; [symmetry; exact Hp|exact He].
+  - eapply Permutation_NoDup; [|exact H3]. unfold ckeys. now apply Permutation_map.
+  - eapply Permutation_Forall; eauto.
+  - etransitivity; [|exact H5]. apply concat_map_perm. now symmetry.
+Qed.
